@@ -104,6 +104,40 @@ Theorem entries_dot_path : forall w suffix l dp fp,
 Proof. exact entries_dot_path_lemma. Qed.
 Print Assumptions entries_dot_path.
 
+(* Both components of an entry at once (file path and dot path), as an equivalence. *)
+Theorem entries_iff : forall w suffix l dirs,
+  get_component_files w suffix = Ok l -> get_component_dirs w false = Ok dirs ->
+  forall dp fp, In (dp, fp) l <->
+    (exists d p rel, In d dirs /\ fp = d ++ p /\ public_file (suffix_of suffix) (tree_at (w_root w) d) p /\
+        strip_prefix (w_base w) fp = Some rel /\ contains DOTDOT (module_path None rel) = false /\
+        dp = module_path None rel)
+    \/ (exists s p, In s (app_sources w) /\ fp = src_dir s ++ p /\
+        public_file (suffix_of suffix) (tree_at (w_root w) (src_dir s)) p /\
+        dp = module_path (Some (fst (fst s))) (snd s ++ p)).
+Proof. exact entries_iff_lemma. Qed.
+Print Assumptions entries_iff.
+
+(* autodiscover() (autodiscovery.py) imports one module per entry of get_component_files(".py"), nothing is
+   filtered after that ... *)
+Theorem autodiscover_imports_every_entry : forall w names l,
+  autodiscover w = Ok names -> get_component_files w (Some PY) = Ok l -> names = map fst l.
+Proof. exact autodiscover_length_lemma. Qed.
+Print Assumptions autodiscover_imports_every_entry.
+
+(* ... so the imported names are exactly the dot paths of the public .py files: [public_file] speaks about the path
+   p BELOW the component directory only - the directories above it (d, e.g. proj/_shared/components) and the app's
+   name (e.g. _legacy.shop) are not subject to the underscore rule. *)
+Theorem autodiscover_imports_iff : forall w names dirs,
+  autodiscover w = Ok names -> get_component_dirs w false = Ok dirs ->
+  forall dp, In dp names <->
+    (exists d p rel, In d dirs /\ public_file PY (tree_at (w_root w) d) p /\
+        strip_prefix (w_base w) (d ++ p) = Some rel /\ contains DOTDOT (module_path None rel) = false /\
+        dp = module_path None rel)
+    \/ (exists s p, In s (app_sources w) /\ public_file PY (tree_at (w_root w) (src_dir s)) p /\
+        dp = module_path (Some (fst (fst s))) (snd s ++ p)).
+Proof. exact autodiscover_iff_lemma. Qed.
+Print Assumptions autodiscover_imports_iff.
+
 (* ---------------- each once ---------------- *)
 
 (* Below one directory every path is returned once (names are unique inside a directory). *)
@@ -261,6 +295,19 @@ Definition ex_world_spelled : world :=
 Example ex_spelling : same_but_spelling ex_world ex_world_spelled /\
   get_component_files ex_world_spelled (Some PY) = get_component_files ex_world (Some PY).
 Proof. split; [repeat split | vm_compute; reflexivity]. Qed.
+
+(* underscore-prefixed names ABOVE the component directory (witnesses underscore-ancestor-dir / underscore-app-package):
+   proj/_shared/components/{card.py, _p.py} and the app _legacy at site/_legacy with components/cart.py - all public
+   modules are imported *)
+Definition ex_world_us : world :=
+  {| w_root := Dir [(s2n "proj", Dir [(s2n "_shared", Dir [(s2n "components", Dir [(s2n "card.py", File); (s2n "_p.py", File)])])]);
+                    (s2n "site", Dir [(s2n "_legacy", Dir [(s2n "__init__.py", File);
+                                                           (s2n "components", Dir [(s2n "cart.py", File)])])])];
+     w_base := [s2n "proj"]; w_dirs := Some [RPlain (PAbs [s2n "proj"; s2n "_shared"; s2n "components"])];
+     w_static := []; w_app_dirs := [[s2n "components"]]; w_apps := [(s2n "_legacy", [s2n "site"; s2n "_legacy"])] |}.
+Example ex_autodiscover_underscore_ancestors :
+  autodiscover ex_world_us = Ok [s2n "_shared.components.card"; s2n "_legacy.components.cart"].
+Proof. vm_compute. reflexivity. Qed.
 
 (* no suffix (witness no-suffix-returns-directories): the files, not the directories sub/ and x.py/ *)
 Example ex_files_nosuffix :
